@@ -30,7 +30,7 @@ IsEv(e) == l <= Len(Log) /\ Log[l].e = e /\ l' = l + 1
 None == [N |-> 0]
 Top == stack[Len(stack)]
 Pop == SubSeq(stack, 1, Len(stack) - 1)
-Frame(kind, q, c, v, must) == [k |-> kind, q |-> q, c |-> c, v |-> v, must |-> must]
+Frame(kind, q, c, v, must) == [k |-> kind, q |-> q, c |-> c, v |-> v, must |-> must, c2 |-> c]
 Open(k) == k \in 1..Len(reqs) /\ reqs[k].state = "open"
 
 TInit == l = 1 /\ cfg = None /\ tnow = 0 /\ reqs = <<>> /\ stack = <<>> /\ closed = FALSE
@@ -51,7 +51,8 @@ TNotify == /\ IsEv("Req") /\ cfg # None /\ ~closed /\ Ev.cb = FALSE /\ Ev.k = 0
 
 (* the peer's response is handed to onRecvData() *)
 TRsp == /\ IsEv("Rsp") /\ cfg # None /\ ~closed
-        /\ stack' = Append(stack, Frame("rsp", Ev.k, Ev.c, Ev.v, Open(Ev.k)))
+        /\ stack' = Append(stack, [Frame("rsp", Ev.k, Ev.c, Ev.v, Open(Ev.k)) EXCEPT !.c2 = Ev.c2])
+           \* c2 # c only for a response that carries an error object AND "result":null: either reading completes the request
         /\ UNCHANGED <<cfg, tnow, reqs, closed>>
 TRspEnd == /\ IsEv("RspEnd") /\ stack # <<>> /\ Top.k = "rsp"
            /\ (Top.must => reqs[Top.q].state # "open")                 \* ResponseWins: the waiting request was completed
@@ -60,7 +61,7 @@ TRspEnd == /\ IsEv("RspEnd") /\ stack # <<>> /\ Top.k = "rsp"
 
 (* a completion callback is invoked *)
 TCbResp == /\ IsEv("Cb") /\ ~closed /\ Open(Ev.k)
-           /\ stack # <<>> /\ Top.k = "rsp" /\ Top.q = Ev.k /\ Top.c = Ev.c /\ Top.v = Ev.v
+           /\ stack # <<>> /\ Top.k = "rsp" /\ Top.q = Ev.k /\ (Top.c = Ev.c \/ Top.c2 = Ev.c) /\ Top.v = Ev.v
            /\ reqs' = [reqs EXCEPT ![Ev.k].state = "resp"]
            /\ stack' = Append(stack, Frame("cb", Ev.k, 0, 0, FALSE))
            /\ UNCHANGED <<cfg, tnow, closed>>
